@@ -20,6 +20,7 @@ import (
 	"context"
 	"fmt"
 	"reflect"
+	"sort"
 	"strconv"
 	"strings"
 	"sync"
@@ -63,8 +64,11 @@ type SessionWindow struct {
 	ticker   *time.Ticker
 	// watermark for event time processing (only used for EventTime)
 	watermark *Watermark
-	// parkSeq numbers the sessions parked by Add when a later event of the same
-	// key starts a new session (see parkedSessionSep).
+	// keySessions lists, per composite session key, the sessionMap keys of that
+	// key's open sessions (one under the key itself, further ones under
+	// key + parkedSessionSep + sequence number).
+	keySessions map[string][]string
+	// parkSeq numbers the additional sessions of a key (see parkedSessionSep).
 	parkSeq uint64
 	// triggeredSessions stores sessions that have been triggered but are still open for late data (for EventTime with allowedLateness)
 	triggeredSessions map[string]*sessionInfo
@@ -74,7 +78,7 @@ type SessionWindow struct {
 }
 
 // parkedSessionSep separates the composite key from the sequence number in the
-// map key of a parked (finished but not yet expired) session of that key.
+// map key of a key's second and further open sessions.
 const parkedSessionSep = "\x00#"
 
 // sessionMapKeyOwner returns the composite session key a sessionMap /
@@ -226,55 +230,96 @@ func (sw *SessionWindow) Add(data any) {
 	// Extract session key (supports multiple group by keys)
 	key := extractSessionCompositeKey(data, sw.config.GroupByKeys)
 
-	// Get or create session
-	s, exists := sw.sessionMap[key]
-	if exists && s.slot.End != nil && !timestamp.Before(*s.slot.End) {
-		// The event lies at or beyond the end of the key's open session: the gap
-		// reached the timeout, so it starts a new session. Park the finished
-		// session under a private map key (it is emitted once the watermark
-		// passes its end) instead of extending it — extending here made the
-		// outcome depend on whether the expiry goroutine happened to run between
-		// the two Adds, and a continuously active key never fired at all.
-		sw.parkSeq++
-		sw.sessionMap[key+parkedSessionSep+strconv.FormatUint(sw.parkSeq, 10)] = s
-		delete(sw.sessionMap, key)
-		exists = false
-	}
-	if !exists {
-		// Create new session
-		// Use the actual timestamp of the first data point as session start
-		// No alignment needed - session starts from when first data arrives
-		start := timestamp
-		end := start.Add(sw.timeout)
-		slot := types.NewTimeSlot(&start, &end)
-
-		s = &session{
-			data:       []types.Row{},
-			lastActive: timestamp,
-			slot:       slot,
-		}
-		sw.sessionMap[key] = s
-	} else {
-		// An on-time, out-of-order event may precede the session's first event:
-		// window_start is the earliest event of the session.
-		if s.slot.Start != nil && timestamp.Before(*s.slot.Start) {
-			newStart := timestamp
-			s.slot.Start = &newStart
-		}
-		// Update session end time
-		if timestamp.After(s.lastActive) {
-			s.lastActive = timestamp
-			// Extend session end time
-			newEnd := timestamp.Add(sw.timeout)
-			if newEnd.After(*s.slot.End) {
-				s.slot.End = &newEnd
-			}
-		}
-	}
+	// Find, merge or create the session this event belongs to.
+	s := sw.joinSession(key, timestamp)
 
 	// Add data to session
 	row.Slot = s.slot
 	s.data = append(s.data, row)
+}
+
+// joinSession returns the session of key that the event at ts belongs to.
+// A key may have several open sessions (out-of-order events within the
+// tolerance can open a session before or between existing ones). The event
+// joins every session it touches — ts lies less than the timeout before its
+// first event and before its end (last event + timeout) — merging them into one
+// when it bridges a gap; it opens a new session when it touches none. A gap
+// that reaches the timeout therefore always separates two sessions, whether or
+// not the expiry goroutine ran in between.
+func (sw *SessionWindow) joinSession(key string, ts time.Time) *session {
+	if sw.keySessions == nil {
+		sw.keySessions = make(map[string][]string)
+	}
+	var touched []string
+	for _, mk := range sw.keySessions[key] {
+		s, ok := sw.sessionMap[mk]
+		if !ok || s.slot == nil || s.slot.Start == nil || s.slot.End == nil {
+			continue
+		}
+		if ts.Before(*s.slot.End) && s.slot.Start.Add(-sw.timeout).Before(ts) {
+			touched = append(touched, mk)
+		}
+	}
+	if len(touched) == 0 {
+		start := ts
+		end := start.Add(sw.timeout)
+		s := &session{
+			data:       []types.Row{},
+			lastActive: ts,
+			slot:       types.NewTimeSlot(&start, &end),
+		}
+		mk := key
+		if _, taken := sw.sessionMap[mk]; taken {
+			sw.parkSeq++
+			mk = key + parkedSessionSep + strconv.FormatUint(sw.parkSeq, 10)
+		}
+		sw.sessionMap[mk] = s
+		sw.keySessions[key] = append(sw.keySessions[key], mk)
+		return s
+	}
+	sort.Slice(touched, func(i, j int) bool {
+		return sw.sessionMap[touched[i]].slot.Start.Before(*sw.sessionMap[touched[j]].slot.Start)
+	})
+	target := sw.sessionMap[touched[0]]
+	for _, mk := range touched[1:] {
+		other := sw.sessionMap[mk]
+		for _, r := range other.data {
+			r.Slot = target.slot
+			target.data = append(target.data, r)
+		}
+		if other.lastActive.After(target.lastActive) {
+			target.lastActive = other.lastActive
+		}
+		sw.dropSessionKey(key, mk)
+	}
+	if ts.Before(*target.slot.Start) {
+		newStart := ts
+		target.slot.Start = &newStart
+	}
+	if ts.After(target.lastActive) {
+		target.lastActive = ts
+	}
+	newEnd := target.lastActive.Add(sw.timeout)
+	target.slot.End = &newEnd
+	return target
+}
+
+// dropSessionKey removes the session stored under mapKey from sessionMap and
+// from the per-key index.
+func (sw *SessionWindow) dropSessionKey(key, mapKey string) {
+	delete(sw.sessionMap, mapKey)
+	list := sw.keySessions[key]
+	for i, mk := range list {
+		if mk == mapKey {
+			list = append(list[:i], list[i+1:]...)
+			break
+		}
+	}
+	if len(list) == 0 {
+		delete(sw.keySessions, key)
+	} else {
+		sw.keySessions[key] = list
+	}
 }
 
 // Start starts the session window's periodic check mechanism
@@ -457,7 +502,7 @@ func (sw *SessionWindow) collectExpiredSessions(currentTime time.Time) [][]types
 				}
 			}
 		}
-		delete(sw.sessionMap, key)
+		sw.dropSessionKey(sessionMapKeyOwner(key), key)
 	}
 
 	return resultsToSend
@@ -553,6 +598,7 @@ func (sw *SessionWindow) Trigger() {
 	}
 	// Clear all sessions
 	sw.sessionMap = make(map[string]*session)
+	sw.keySessions = make(map[string][]string)
 
 	// Capture callback under the lock; release before sending to avoid blocking.
 	callback := sw.callback
@@ -603,6 +649,7 @@ func (sw *SessionWindow) Reset() {
 
 	// Clear session data
 	sw.sessionMap = make(map[string]*session)
+	sw.keySessions = make(map[string][]string)
 	sw.triggeredSessions = make(map[string]*sessionInfo)
 	sw.initialized = false
 	sw.initChan = make(chan struct{})
